@@ -651,6 +651,7 @@ func (a *c13Agg) outcome(o c13Outcome) {
 	run.Count("single_missing_samples_next_to_a_seam", int64(o.SeamGaps))
 	run.Count("runs_continuing_across_a_seam", int64(o.SeamMerges))
 	run.Count("cached_repeat_requests_reaching_server", int64(o.CachedReqs))
+	run.Count("step_change_probes_compared_with_fresh_client", int64(o.StepChanges))
 	run.Max("max_slices_in_a_case", int64(o.Slices))
 	run.Distinct("slices_per_case", fmt.Sprintf("%02d", o.Slices))
 	run.Distinct("steps_s", fmt.Sprintf("%06d", cs.StepS))
